@@ -183,6 +183,21 @@ func CBCEncryptRaw(key, iv, data []byte) ([]byte, error) {
 	return out, nil
 }
 
+// CBCDecryptRaw CBC-decrypts block-aligned data without interpreting MAC or padding (for diagnostics).
+func CBCDecryptRaw(key, iv, data []byte) ([]byte, error) {
+	b, err := aes.NewCipher(key)
+	if err != nil {
+		return nil, err
+	}
+	if len(iv) != 16 || len(data)%16 != 0 {
+		return nil, errors.New("refimpl: CBC needs a 16-byte IV and block-aligned data")
+	}
+	out := make([]byte, len(data))
+	cipher.NewCBCDecrypter(b, iv).CryptBlocks(out, data)
+
+	return out, nil
+}
+
 func defaultCBCIV(key []byte, epoch uint16, seq uint64) []byte {
 	d := sha256.Sum256(cat([]byte("refimpl cbc iv"), key, seq64(epoch, seq)))
 
